@@ -151,7 +151,7 @@ def cases(r, quick):
     # corpus: optimizers that build an inner optimizer and draw AFTER construction (fixed: d4e3c2e) - grid search under
     # constraints falls back to random positions
     r2 = C.rng("C07-grid-constrained")
-    for _ in range(4 if quick else 20):
+    for _ in range(C.T(4, 20)):
         sp = bkgen.scenario(r2, "GridSearchOptimizer", constraint_p=0.0, sizes=[3, 5, 7, 10])
         sp["constraint"] = gen.gen_constraint(r2, sp["space"], kinds=("mask", "half", "parity"))
         sp["n_iter"] = 25
